@@ -354,6 +354,13 @@ func propTokC(c *Ctx, n int) {
 // registered symbols of three to five characters whose longer proper prefixes are not symbols: every prefix at the end of the
 // input, before a digit, a letter, a blank, itself, and after the complete symbol
 func propLongSymbols(c *Ctx) {
+	// a character beyond the BMP whose low 16 bits are those of a registered symbol is another character
+	for _, kind := range []string{"g", "e"} {
+		ops := []cfgOp{{k: "Y", v: []rune("≤"), typ: tokenizers.Symbol}, {k: "Y", v: []rune("≤≥"), typ: tokenizers.Symbol}}
+		for _, in := range [][]rune{{0x12264}, {'a', 0x12264, 'b'}, {0x2264, 0x12265}, {0x12264, 0x2265}, {'x', ' ', 0x22264, ' ', 'y'}} {
+			runTokCCase(c, kind, 0, ops, in, "astral-look-alike")
+		}
+	}
 	for _, sym := range []string{"<!--", "=:~", "=:=:", "->>>>", "<==>", "世世世"} {
 		for _, kind := range []string{"g", "e"} {
 			ops := []cfgOp{{k: "Y", v: []rune(sym), typ: tokenizers.Symbol}}
